@@ -33,7 +33,7 @@ def run(ctx, report):
     report.rule = ("the (DataFrame, write-option) pairs of C01: every dtype, row counts 0/1/7/8/9/63/64/65 (8191..8193 thorough), null patterns, "
                    "codec per column, row-group splits, has_nulls modes, page sizes forcing several pages, page v1/v2, stats, int96, hive; "
                    "non-trivial = >=1 row and (a null or >=2 pages or >=2 row groups or a non-default option); distinct by the case descriptor")
-    ncases = 96 if ctx.quick else 400
+    ncases = 98 if ctx.quick else 400
     work = []
     for idx in range(ncases):
         case = wcases.gen_case(rng, idx, ctx.quick)
